@@ -477,3 +477,16 @@ func isBytesBuffer(r io.Reader) bool {
 func TrackerWF(t *SessionTracker) bool {
 	return t != nil && t.mailbox != nil && wfBack(t.queue, len(t.queue)-1, t.mailbox.numMessages)
 }
+
+// ---------------------------------------------------------------------------
+// C08: EXPUNGE is never sent while answering FETCH, STORE or SEARCH.
+
+//@ func (c *Conn) poll(cmd string) (err error)
+//@   props C08:callsite,post,pre@call
+//@   callsite Session.Poll(s Session, w *UpdateWriter, allowExpunge bool) requires allowExpunge == !(cmd == "FETCH" || cmd == "STORE" || cmd == "SEARCH") && w != nil && w.allowExpunge == allowExpunge && w.conn == c
+
+//@ func (w *UpdateWriter) WriteExpunge(seqNum uint32) (err error)
+//@   props C08:callsite,post,pre@call
+//@   requires w != nil
+//@   callsite Conn.writeExpunge requires w.allowExpunge
+//@   ensures !w.allowExpunge ==> err != nil
